@@ -231,3 +231,19 @@ Lemma ex_interleaved :
 Proof.
   eexists. split; [vm_compute; reflexivity|]. split; [vm_compute; reflexivity|]. split; vm_compute; reflexivity.
 Qed.
+
+(* the driver on an "observed" interleaving that is longer than the model's runs and stops
+   before they are complete: entries of returned runs are skipped, the rest is finished *)
+Lemma ex_driver :
+  exists g1 t1 g2 t2,
+    gdrive (lift estep) [2; 2; 0; 1; 2; 2; 2; 2; 2; 2; 0; 1; 1; 0]%nat (ex_obj, map (einit ex_obj) [ex_call1; ex_call2; ex_call3]) = (g1, t1) /\
+    gfinish (lift estep) 80 (seq 0 3) g1 = (g2, t2) /\
+    all_final (lift estep) g2 = true /\
+    t1 = [2; 2; 0; 1; 2; 2; 2; 2; 0; 1; 1; 0]%nat /\ t2 = [0; 0; 0; 1; 1]%nat /\
+    map (fun r => option_map fst (eobs false r)) (snd g2) =
+      [Some "ok:V{<tSELF> n=2 lim=2 h=({p0=V{<tSELF> n=2 lim=2 h=in2>a[o=d0]>w>w>f>p0}})>j}";
+       Some "err:node:f"; Some "err:maxsteps"].
+Proof.
+  do 4 eexists. split; [vm_compute; reflexivity|]. split; [vm_compute; reflexivity|].
+  split; [vm_compute; reflexivity|]. split; [vm_compute; reflexivity|]. split; vm_compute; reflexivity.
+Qed.
